@@ -81,7 +81,7 @@ func runCrash(c *evid.Ctx, id string, cfg crashCfg) {
 	if id == "C13" {
 		c13Pinning(c)
 	}
-	if id == "C01" || id == "C03" || id == "C04" {
+	if id == "C01" || id == "C03" || id == "C04" || id == "C13" {
 		// power-loss images of the production stack (real fs, real BoltDB) replayed from strace
 		if quick(c) {
 			replayPart(c, 3, 24, 2, "log")
